@@ -10,6 +10,7 @@
 // that location - i.e. the minimal failing input of the enumerated domain.
 // A fatal signal / uncaught exception prints the case being evaluated and exits 1.
 #pragma once
+#include <cctype>
 #include <chrono>
 #include <csignal>
 #include <cstdint>
@@ -90,7 +91,7 @@ inline bool desc_has(const char *s) { return strstr(g_san_desc, s) != nullptr; }
 inline void finish_stats(const char *name) {
   if (g_capped) printf("@CAP %s: deadline reached after states=%llu transitions=%llu\n", name, C.states, C.transitions);
   printf("@STAT states=%llu transitions=%llu executions=%llu violations=%llu\n", C.states, C.transitions, C.executions, C.violations);
-  printf("@INFO %s: states(distinct inputs)=%llu transitions(input x variant cases)=%llu executions(real-code calls)=%llu sanitizer_reports=%d\n",
+  printf("@INFO %s: states(enumerated inputs)=%llu transitions(input x variant cases)=%llu executions(real-code calls)=%llu sanitizer_reports=%d\n",
          name, C.states, C.transitions, C.executions, (int)g_san);
   fflush(stdout);
 }
